@@ -387,8 +387,8 @@ def run_pair_differs(b, a):
 
 def run(ctx):
     rng = ctx.rng
-    n_r = ctx.scale(200, 3000)
-    n_t = ctx.scale(100, 1500)
+    n_r = ctx.scale(200, 1000)
+    n_t = ctx.scale(100, 600)
     max_dbg = ctx.scale(5, 30)
     max_ann = ctx.scale(7, 40)
     ctx.rule = ("%d RGen programs (6-name pool, closures, assignment, loops, match) and %d typed programs (generic "
